@@ -681,12 +681,19 @@ fn run_for_panic<D: Store + Mk>(parsed: &ParseResult, ntok: usize, hk: HostK, ma
     a.m.shadow_on = false;
     a.m.max_instr = usize::MAX;
     a.m.max_data = a.d0 + 60_000;
+    // one step may walk a range of two billion positions (a slice with a huge range cast to a list): the run is
+    // cut off after a bounded number of store calls, which is a budget of this harness, not a verdict
+    a.m.max_ops = a.m.ops + 3_000_000;
     let unit = a.m.add_unit().ok()?;
     start(&mut a.m, *a.build.jump_index(), unit).ok()?;
     let mut n = 0u64;
     loop {
         if n >= max_steps {
             acc.count("step_limit");
+            return None;
+        }
+        if a.m.budget_hit == Some("ops") {
+            acc.count("store_call_budget_hit");
             return None;
         }
         if let Some((ins, _)) = a.m.get_instruction(a.m.get_instruction_cursor()) {
@@ -846,7 +853,7 @@ pub const FIXED: [&str; 27] = [
     "(1..3) ~# (1 2)",
 ];
 
-pub const BOUNDARY_LITS: [&str; 40] = [
+pub const BOUNDARY_LITS: [&str; 57] = [
     "2147483647",
     "2147483648",
     "0",
@@ -887,6 +894,24 @@ pub const BOUNDARY_LITS: [&str; 40] = [
     "((1 <> 2 <> 3) <~ (2..0))",
     "(4..2)",
     "(1 2)",
+    // slices and ranges at the ends of the number range
+    "((1, 2, 3) <~ (2147483645..2147483646))",
+    "((1 <> 2 <> 3) <~ (0..1e300))",
+    "((1 <> 2) <~ ((0 - 5)..2147483646))",
+    "(\"abc\" <~ ((0 - 1)..2147483646))",
+    "((1 2 3) <~ ((0 - 2147483647)..(0 - 2147483646)))",
+    "('ab' <~ (2147483646..2147483646))",
+    "((:a.b.c) <~ (1..2147483646))",
+    "(2147483646..2147483646)",
+    "((0 - 2147483647)..(0 - 2147483646))",
+    "(0..1e300)",
+    "(1.5..2.5)",
+    "((1 <> 2 <~ (0..0)) <> 3)",
+    "((1 <> 2 <~ ((0 - 5)..2147483646)) <> 3)",
+    "(((1, 2) <~ (2147483646..2147483646)) <> 3)",
+    "(1 <> (2 3) <> \"ab\")",
+    "(,)",
+    "\"\"",
 ];
 
 pub const BOUNDARY_OPS: [&str; 36] = [
@@ -915,7 +940,9 @@ pub fn run(ctx: &Ctx, which: Which) -> (Acc, String, bool) {
     }
     let ex_total = *offs.last().unwrap();
     let nb = BOUNDARY_LITS.len() as u64;
-    let boundary_total = if which == Which::C07 { nb * nb * (BOUNDARY_OPS.len() as u64) / ctx.pick(4, 1) + nb * 13 } else { 0 };
+    // every literal under every unary operator, every (literal, operator, literal) triple, and random two-operator programs
+    let boundary_pairs = nb * nb * (BOUNDARY_OPS.len() as u64) + nb * 13;
+    let boundary_total = if which == Which::C07 { boundary_pairs + ctx.pick(40_000, 2_000_000) } else { 0 };
     let soup_total: u64 = ctx.pick(150_000, 6_000_000);
     let fam_sizes: Vec<usize> = if ctx.quick() { vec![8, 64, 512, 4096] } else { vec![8, 64, 512, 4096, 16384] };
     let fam_total = (corpus::FAMILIES.len() * fam_sizes.len()) as u64;
@@ -1002,14 +1029,14 @@ pub fn run(ctx: &Ctx, which: Which) -> (Acc, String, bool) {
                 let lit = BOUNDARY_LITS[(j / 13) as usize];
                 let k = (j % 13) as usize;
                 if k < 9 { format!("{} {}", BOUNDARY_PRE[k], lit) } else { format!("{} {}", lit, BOUNDARY_SUF[k - 9]) }
-            } else if ctx.quick() {
+            } else if j >= boundary_pairs {
                 let a = BOUNDARY_LITS[r.below(nb as usize)];
                 let b = BOUNDARY_LITS[r.below(nb as usize)];
                 let op = BOUNDARY_OPS[r.below(nops as usize)];
-                if r.chance(1, 4) {
-                    format!("({} {} {}) {} {}", a, op, b, BOUNDARY_OPS[r.below(nops as usize)], BOUNDARY_LITS[r.below(nb as usize)])
-                } else {
-                    format!("{} {} {}", a, op, b)
+                match r.below(3) {
+                    0 => format!("({} {} {}) {} {}", a, op, b, BOUNDARY_OPS[r.below(nops as usize)], BOUNDARY_LITS[r.below(nb as usize)]),
+                    1 => format!("{} {} ({} {} {})", BOUNDARY_LITS[r.below(nb as usize)], BOUNDARY_OPS[r.below(nops as usize)], a, op, b),
+                    _ => format!("{} ({} {} {}) {}", BOUNDARY_PRE[r.below(9)], a, op, b, BOUNDARY_SUF[r.below(4)]),
                 }
             } else {
                 let jj = j - nb * 13;
@@ -1075,12 +1102,20 @@ pub fn run(ctx: &Ctx, which: Which) -> (Acc, String, bool) {
         if ctx.only_case.is_some() {
             println!("case input ({}): {:?}", kind, src);
         }
+        let t0 = std::time::Instant::now();
         match which {
             Which::C03 => judge_c03(&src, &kind, acc),
             Which::C04 => judge_c04(&src, &kind, acc),
             Which::C05 => judge_c05(&src, &kind, acc),
             Which::C06 => crate::props::c06::judge(&src, &kind, steps, acc),
             Which::C07 => judge_c07(&src, &kind, steps, acc),
+        }
+        // development aid: GMON_SLOW_MS=<n> lists the inputs that took longer (wall clock is never a verdict)
+        if let Ok(ms) = std::env::var("GMON_SLOW_MS") {
+            let el = t0.elapsed().as_millis();
+            if el >= ms.parse::<u128>().unwrap_or(1000) {
+                eprintln!("SLOW {} ms ({}): {:?}", el, kind, src.chars().take(200).collect::<String>());
+            }
         }
     });
     let rule = format!(
@@ -1091,7 +1126,7 @@ pub fn run(ctx: &Ctx, which: Which) -> (Acc, String, bool) {
         l_gap,
         if blocks.iter().any(|b| b.0 == 5) { " plus length 5 without fillers" } else { "" },
         ex_total,
-        if boundary_total > 0 { format!("{} boundary-literal programs (34 literals x 36 binary / 13 unary operators); ", boundary_total) } else { String::new() },
+        if boundary_total > 0 { format!("{} boundary-literal programs ({} literals x 36 binary / 13 unary operators); ", boundary_total, BOUNDARY_LITS.len()) } else { String::new() },
         soup_total,
         ctx.pick(40, 200),
         corpus::FAMILIES.len(),
